@@ -52,7 +52,7 @@ RULE = ("correspondence: every (value, bits 1..8, byte order, (width,minwidth) i
         "subprocess; hand-built tags: v2.2 {whole-tag unsynchronisation} (6-byte frame headers: MCI = the payload itself, UFI, TT2, TP1, PIC), v2.3 {whole-tag unsynchronisation} x {plain, compressed frames (4-byte size + zlib)} and v2.4 {tag-level flag} x "
         "{frame flag} x {plain, data length indicator, zlib + data length indicator, zlib without the indicator flag}, zlib streams from "
         "Python's zlib at levels 0/6 (9 in the mixtures), with a sync flush (00 00 FF FF inside) and from a hand-made stored-block writer (NLEN = FF..), "
-        "padded and unpadded, plus random per-frame mixtures; payloads = every alphabet string to length 3 (quick) / 4, long FF runs, "
+        "padded and unpadded, plus random per-frame mixtures; payloads = every alphabet string to length 3 (quick; the three-byte ones on a rotating third of the layouts) / 4, long FF runs, "
         "FF 00 runs, random alphabet and random byte strings; five/six frames per tag (MCDI = the payload itself, PRIV x2, UFID, TIT2 "
         "UTF-16 with BOM, TPE1 latin-1) must read back exactly and like the flag-free tag. "
         "non-trivial = value > 0 / non-empty string / rejected input; distinct by (function, parameters, input)")
@@ -903,9 +903,12 @@ def run_tags(ctx, payloads, nmixed=3):
         if B.ff00_plain:
             ctx.count("tag-content:FF 00 in the plaintext of a compressed unsynchronised frame")
 
-    for p in payloads:
+    for j, p in enumerate(payloads):
         zcache, plain = {}, {}
-        layouts = [(i, l) for i, l in enumerate(UNIFORM)]
+        # quick tier: the 512 three-byte alphabet payloads take every third layout each (rotating); all other payloads
+        # (shorter, long runs, random) take every layout
+        thin = len(p) == 3 and not ctx.thorough
+        layouts = [(i, l) for i, l in enumerate(UNIFORM) if not thin or (i + j) % 3 == 0]
         for k in range(nmixed):
             layouts.append((len(UNIFORM) + k, mixed_layout(rng, 2 + (k + len(p)) % 3)))
         for i, l in layouts:
